@@ -41,6 +41,10 @@ def idents_for(rng, hist):
         for x in ["head", "heads", "base"] + ids:
             out.add(l + "@" + x)
         out.add(l[:-1] + "@head")
+        # branch-qualified partial identifiers: every prefix of every id
+        for i in ids:
+            for k in range(1, len(i)):
+                out.add(l + "@" + i[:k])
     return sorted(out)
 
 
@@ -103,6 +107,17 @@ def run(ctx, rng_name="main"):
     for g in range(n_graphs):
         collide = g % 2 == 0
         hist = gen_graph.gen_history(rng, rng.randint(2, 9), labels=True, deps=rng.random() < 0.4, collide=collide)
+        if g % 4 == 1:
+            # many ids of >=4 characters sharing prefixes, several labelled branches
+            hist = gen_graph.gen_history(rng, rng.randint(5, 11), labels=True, deps=False, collide=False, p_root=0.3)
+            stems = ["feed", "fee", "fa"]
+            for k, r in enumerate(hist):
+                new = rng.choice(stems) + "%03d" % k
+                old = r["id"]
+                r["id"] = new
+                for q in hist:
+                    q["down"] = [new if x == old else x for x in q["down"]]
+                    q["deps"] = [new if x == old else x for x in q["deps"]]
         sd, info = rev_impl.load(hist)
         if sd is None:
             continue
@@ -154,6 +169,12 @@ def judge(ctx, cases):
                     if r is not None:
                         spec_ops.append({"op": "rev.spec.plain", **h, "ident": ident, "result": r})
                         spec_meta.append(("plain", inp, impl, r))
+            if ident.count("@") == 1 and ident.split("@")[1] not in ("head", "heads", "base"):
+                lab, part = ident.split("@")
+                for r in impl["revs"]:
+                    if r is not None:
+                        spec_ops.append({"op": "rev.spec.branchprefix", **h, "label": lab, "ident": part, "result": r})
+                        spec_meta.append(("branchprefix", inp, impl, r))
             spec_ops.append({"op": "rev.spec.targets", **h, "ident": ident})
             spec_meta.append(("ref", inp, impl, None))
         else:
@@ -200,6 +221,9 @@ def judge(ctx, cases):
         elif kind == "ref":
             if "targets" in a and sorted(x for x in impl["revs"] if x) != sorted(a["targets"]):
                 ctx.fail(inp, "symbolic: %r resolves to %s, documented meaning is %s" % (inp["ident"], impl["revs"], a["targets"]), impl=impl, tags=["symbolic"])
+        elif kind == "branchprefix":
+            if a.get("holds") is not True:
+                ctx.fail(inp, "wrong-revision-in-branch: %r resolves to %r which is not the unique revision of that branch whose id starts with it" % (inp["ident"], extra), impl=impl, tags=["branchprefix"])
         elif kind == "inbranch":
             if a.get("holds") is False:
                 ctx.fail(inp, "outside-branch: %r resolves to %s which is not on the named branch" % (inp["target"], extra), impl=impl, tags=["branch"])
